@@ -1,7 +1,7 @@
 /-
 C17 — peering: imports mirror exactly what was exported and touch nothing else.
 Property theorems only; helper lemmas live in CV/Proofs/Peer*.lean. Model: CV/Peer.lean, vocabulary of the
-statements (others, Sub, WF, SnapOK, ViewIs, Fresh, NoTheft, NoReuse, Covered): CV/PeerSpec.lean.
+statements (others, Sub, WF, SnapOK, ViewIs, Fresh, NoReuse, Covered, NoClash, Readable): CV/PeerSpec.lean.
 
 Domain of the model: case-normal names (the state store lower-cases index keys, the importer's Go maps do not:
 names that differ only in case break the import — known finding `import:names-differing-only-in-case`, replayed
@@ -12,6 +12,7 @@ snapshots and arbitrary message sequences; there is no size bound anywhere.
 -/
 import CV.Proofs.PeerGo
 import CV.Proofs.PeerExport
+import CV.Proofs.PeerIdx
 set_option linter.unusedSectionVars false
 set_option linter.unusedSimpArgs false
 namespace CV.Peer
@@ -130,11 +131,12 @@ Full-strength statement (FALSE for the code as it is, see the counterexamples be
 is still in the snapshot, registers "changed" rows against the view read before any write, and relies on
 `ensureNodeTxn`, which renames (= deletes) a stored node that holds a received UUID under another name. The
 theorem below proves the statement with exactly these situations excluded, each as an explicit hypothesis:
-`Fresh` (no rename), `NoTheft` (no instance id taken over from another service of the peer), `NoReuse` (a check
+`Fresh` (no rename), `NoReuse` (a check
 id deleted by the clean-up is not re-used by another received check of the node), `Covered` (a stored check in
 the view of a received instance is listed by it, or hangs on a stored instance the clean-up examines). -/
 
-/-- **Imports mirror the snapshot** (partial: hypotheses `Fresh`, `NoTheft`, `NoReuse`, `Covered`).
+/-- **Imports mirror the snapshot** (partial: hypotheses `Fresh`, `NoReuse`, `Covered`; taking over the instance id of another
+    service of the peer is allowed as long as it leaves no stale check, which is what `Covered` says).
     For every well-formed catalog and every well-formed snapshot, after a processed update
     * every received node, instance and check is in the catalog exactly as received (the service name of a
       check is the one of its instance, an empty status cannot occur),
@@ -143,7 +145,7 @@ the view of a received instance is listed by it, or hangs on a stored instance t
       ones — absent ones are removed,
     and the catalog is well formed again, so the theorem applies to the next message. -/
 theorem import_exact_partial (c : Cat) (p sn : String) (is : List Inst)
-    (wf : WF c) (ok : SnapOK sn is) (fr : Fresh c p is) (nt : NoTheft c p sn is)
+    (wf : WF c) (ok : SnapOK sn is) (fr : Fresh c p is)
     (nr : NoReuse c p sn is) (cv : Covered c p sn is)
     (he : (handleUpdate c p sn is).err = none) (hp : (handleUpdate c p sn is).panic = false) :
     WF (handleUpdate c p sn is).cat ∧
@@ -153,16 +155,16 @@ theorem import_exact_partial (c : Cat) (p sn : String) (is : List Inst)
     (∀ s ∈ (handleUpdate c p sn is).cat.svcs, s.peer = p → s.name = sn → ∃ i ∈ is, s = svcRow p i.node.name i.svc) ∧
     (∀ i ∈ is, ∀ k ∈ (handleUpdate c p sn is).cat.chks, k.peer = p → k.node = i.node.name →
         (k.sid = "" ∨ k.sid = i.svc.sid) → ∃ d ∈ i.chks, k = chkRow p d) :=
-  handleUpdate_exact wf ok fr nt nr cv he hp
+  handleUpdate_exact wf ok fr nr cv he hp
 
 /-- The same through the read path: `CheckServiceNodes(sn, p)` on the resulting catalog returns the received
     snapshot — nodes, instances, checks. -/
 theorem import_exact_view_partial (c : Cat) (p sn : String) (is : List Inst)
-    (wf : WF c) (ok : SnapOK sn is) (fr : Fresh c p is) (nt : NoTheft c p sn is)
+    (wf : WF c) (ok : SnapOK sn is) (fr : Fresh c p is)
     (nr : NoReuse c p sn is) (cv : Covered c p sn is)
     (he : (handleUpdate c p sn is).err = none) (hp : (handleUpdate c p sn is).panic = false) :
     ViewIs (handleUpdate c p sn is).cat p sn is := by
-  obtain ⟨a, b, d, e⟩ := handleUpdate_exact wf ok fr nt nr cv he hp
+  obtain ⟨a, b, d, e⟩ := handleUpdate_exact wf ok fr nr cv he hp
   exact viewIs_of_rows a ok b d e
 
 /-- **Consistent snapshots are processed.** If in addition no stored node of the peer carries another UUID under
@@ -170,27 +172,26 @@ theorem import_exact_view_partial (c : Cat) (p sn : String) (is : List Inst)
     acknowledged: no registration fails, nothing panics. So the hypotheses "no error, no panic" of the theorems
     of this file follow from conditions on the catalog and the snapshot alone. -/
 theorem import_processed (c : Cat) (p sn : String) (is : List Inst)
-    (wf : WF c) (ok : SnapOK sn is) (fr : Fresh c p is) (nt : NoTheft c p sn is) (nc : NoClash c p is)
+    (wf : WF c) (ok : SnapOK sn is) (fr : Fresh c p is) (nc : NoClash c p is)
     (rd : Readable c p sn) :
     (handleUpdate c p sn is).err = none ∧ (handleUpdate c p sn is).panic = false :=
-  handleUpdate_processed wf ok fr nt nc rd
+  handleUpdate_processed wf ok fr nc rd
 
 /-- Exactness with every hypothesis on the inputs, none on the outcome. -/
 theorem import_exact_total_partial (c : Cat) (p sn : String) (is : List Inst)
-    (wf : WF c) (ok : SnapOK sn is) (fr : Fresh c p is) (nt : NoTheft c p sn is) (nc : NoClash c p is)
+    (wf : WF c) (ok : SnapOK sn is) (fr : Fresh c p is) (nc : NoClash c p is)
     (rd : Readable c p sn) (nr : NoReuse c p sn is) (cv : Covered c p sn is) :
     (handleUpdate c p sn is).err = none ∧ ViewIs (handleUpdate c p sn is).cat p sn is := by
-  obtain ⟨he, hp⟩ := handleUpdate_processed wf ok fr nt nc rd
-  exact ⟨he, import_exact_view_partial c p sn is wf ok fr nt nr cv he hp⟩
+  obtain ⟨he, hp⟩ := handleUpdate_processed wf ok fr nc rd
+  exact ⟨he, import_exact_view_partial c p sn is wf ok fr nr cv he hp⟩
 
-/-- A first import into a catalog that holds nothing of the peer needs none of the four hypotheses. -/
+/-- A first import into a catalog that holds nothing of the peer needs none of the three hypotheses. -/
 theorem import_exact_first (c : Cat) (p sn : String) (is : List Inst) (wf : WF c) (ok : SnapOK sn is)
     (hnew : (∀ x ∈ c.nodes, x.peer ≠ p) ∧ (∀ x ∈ c.svcs, x.peer ≠ p) ∧ (∀ x ∈ c.chks, x.peer ≠ p))
     (he : (handleUpdate c p sn is).err = none) (hp : (handleUpdate c p sn is).panic = false) :
     ViewIs (handleUpdate c p sn is).cat p sn is := by
-  apply import_exact_view_partial c p sn is wf ok _ _ _ _ he hp
+  apply import_exact_view_partial c p sn is wf ok _ _ _ he hp
   · intro i _ _ e he hep; exact absurd hep (hnew.1 e he)
-  · intro s hs hsp; exact absurd hsp (hnew.2.1 s hs)
   · intro k hk hkp; exact absurd hkp (hnew.2.2 k hk)
   · intro k hk hkp; exact absurd hkp (hnew.2.2 k hk)
 
@@ -246,7 +247,7 @@ def cxCsnap : List Inst := [⟨⟨"n1", "", "10.0.0.1"⟩, ⟨"s1", "web", 80⟩
     the service `web` without checks: the row is overwritten, the old service's check stays attached to it. -/
 theorem import_exact_counterexample_id_taken_over :
     WF cxC ∧ SnapOK "web" cxCsnap ∧ (handleUpdate cxC "p1" "web" cxCsnap).err = none ∧
-    ¬ ViewIs (handleUpdate cxC "p1" "web" cxCsnap).cat "p1" "web" cxCsnap ∧ ¬ NoTheft cxC "p1" "web" cxCsnap := by
+    ¬ ViewIs (handleUpdate cxC "p1" "web" cxCsnap).cat "p1" "web" cxCsnap ∧ ¬ Covered cxC "p1" "web" cxCsnap := by
   refine ⟨⟨by decide, by decide, by decide, by decide⟩,
     ⟨by decide, by decide, by decide, by decide, by decide, by decide, by decide, by decide⟩, by decide, ?_, by decide⟩
   apply not_viewIs_of_stale (L := [⟨⟨"p1", "n1", "", "10.0.0.1"⟩, ⟨"p1", "n1", "s1", "web", 80⟩,
@@ -255,6 +256,17 @@ theorem import_exact_counterexample_id_taken_over :
   · exact List.mem_singleton.mpr rfl
   · exact List.mem_singleton.mpr rfl
   · decide
+
+/-- the benign take-over: the instance id `s1` of `api` is re-registered under `web` and the old check is replaced
+    by a received one with the same id — every hypothesis of `import_exact_view_partial` holds -/
+def exT : Cat := { nodes := [⟨"p1", "n1", "", "10.0.0.1"⟩], svcs := [⟨"p1", "n1", "s1", "api", 80⟩],
+                   chks := [⟨"p1", "n1", "s1:overall-check", "s1", "api", "critical"⟩] }
+def exTsnap : List Inst := [⟨⟨"n1", "", "10.0.0.1"⟩, ⟨"s1", "web", 80⟩, [⟨"n1", "s1:overall-check", "s1", "web", "passing"⟩]⟩]
+
+example : ViewIs (handleUpdate exT "p1" "web" exTsnap).cat "p1" "web" exTsnap :=
+  import_exact_view_partial exT "p1" "web" exTsnap ⟨by decide, by decide, by decide, by decide⟩
+    ⟨by decide, by decide, by decide, by decide, by decide, by decide, by decide, by decide⟩
+    (by decide) (by decide) (by decide) (by decide) (by decide)
 
 /-- stored: `web` instances `a` and `b` on `n1`; check `c1` belongs to `a` -/
 def cxD : Cat := { nodes := [⟨"p1", "n1", "", "10.0.0.1"⟩],
@@ -298,12 +310,23 @@ def cxFsnap : List Inst := [⟨⟨"n1", "u2", "10.0.0.1"⟩, ⟨"web1", "web", 8
     (its old serf check was last seen passing): `ensureNoNodeWithSimilarNameTxn` refuses the registration, the
     update fails and changes nothing — this time and every time it is sent again. -/
 theorem import_processed_counterexample_node_reserved :
-    WF cxF ∧ SnapOK "web" cxFsnap ∧ Fresh cxF "p1" cxFsnap ∧ NoTheft cxF "p1" "web" cxFsnap ∧ Readable cxF "p1" "web" ∧
+    WF cxF ∧ SnapOK "web" cxFsnap ∧ Fresh cxF "p1" cxFsnap ∧ Readable cxF "p1" "web" ∧
     ¬ NoClash cxF "p1" cxFsnap ∧
     (handleUpdate cxF "p1" "web" cxFsnap).err = some .nodeReserved ∧ (handleUpdate cxF "p1" "web" cxFsnap).cat = cxF := by
   refine ⟨⟨by decide, by decide, by decide, by decide⟩,
     ⟨by decide, by decide, by decide, by decide, by decide, by decide, by decide, by decide⟩,
-    by decide, by decide, by decide, by decide, by decide, by decide⟩
+    by decide, by decide, by decide, by decide, by decide⟩
+
+/-- the escape of `ensureNoNodeWithSimilarNameTxn`: the same replacement is accepted when the stored node's serf
+    check is critical (`NoClash` holds through its third alternative) -/
+def exG : Cat := { cxF with chks := [⟨"p1", "n1", "serfHealth", "", "", "critical"⟩] }
+
+example : (handleUpdate exG "p1" "web" cxFsnap).err = none ∧ (handleUpdate exG "p1" "web" cxFsnap).panic = false :=
+  import_processed exG "p1" "web" cxFsnap ⟨by decide, by decide, by decide, by decide⟩
+    ⟨by decide, by decide, by decide, by decide, by decide, by decide, by decide, by decide⟩
+    (by decide) (by decide) (by decide)
+example : ¬ (∀ i ∈ cxFsnap, i.node.id ≠ "" → ∀ e ∈ exG.nodes, e.peer = "p1" → e.name = i.node.name →
+    e.id = "" ∨ e.id = i.node.id) := by decide
 
 /-! ### non-vacuity: a second update of a shared catalog that meets every hypothesis and changes everything -/
 
@@ -325,19 +348,19 @@ def exSnap : List Inst :=
 theorem ex_wf : WF exC := ⟨by decide, by decide, by decide, by decide⟩
 theorem ex_snapOK : SnapOK "web" exSnap :=
   ⟨by decide, by decide, by decide, by decide, by decide, by decide, by decide, by decide⟩
-theorem ex_hyps : Fresh exC "p1" exSnap ∧ NoTheft exC "p1" "web" exSnap ∧ NoReuse exC "p1" "web" exSnap ∧
+theorem ex_hyps : Fresh exC "p1" exSnap ∧ NoReuse exC "p1" "web" exSnap ∧
     Covered exC "p1" "web" exSnap ∧ (handleUpdate exC "p1" "web" exSnap).err = none ∧
     (handleUpdate exC "p1" "web" exSnap).panic = false :=
-  ⟨by decide, by decide, by decide, by decide, by decide, by decide⟩
+  ⟨by decide, by decide, by decide, by decide, by decide⟩
 theorem ex_hyps2 : NoClash exC "p1" exSnap ∧ Readable exC "p1" "web" := ⟨by decide, by decide⟩
 
 example : (handleUpdate exC "p1" "web" exSnap).err = none ∧ ViewIs (handleUpdate exC "p1" "web" exSnap).cat "p1" "web" exSnap :=
-  import_exact_total_partial exC "p1" "web" exSnap ex_wf ex_snapOK ex_hyps.1 ex_hyps.2.1 ex_hyps2.1 ex_hyps2.2
-    ex_hyps.2.2.1 ex_hyps.2.2.2.1
+  import_exact_total_partial exC "p1" "web" exSnap ex_wf ex_snapOK ex_hyps.1 ex_hyps2.1 ex_hyps2.2
+    ex_hyps.2.1 ex_hyps.2.2.1
 
 example : ViewIs (handleUpdate exC "p1" "web" exSnap).cat "p1" "web" exSnap :=
-  import_exact_view_partial exC "p1" "web" exSnap ex_wf ex_snapOK ex_hyps.1 ex_hyps.2.1 ex_hyps.2.2.1 ex_hyps.2.2.2.1
-    ex_hyps.2.2.2.2.1 ex_hyps.2.2.2.2.2
+  import_exact_view_partial exC "p1" "web" exSnap ex_wf ex_snapOK ex_hyps.1 ex_hyps.2.1 ex_hyps.2.2.1
+    ex_hyps.2.2.2.1 ex_hyps.2.2.2.2
 
 -- executable sanity tests (tests, not theorems): what the driver computes for this update
 #guard (handleUpdate exC "p1" "web" exSnap).cat.svcs.map (fun s => (s.peer, s.node, s.sid, s.port)) ==
@@ -348,28 +371,30 @@ example : ViewIs (handleUpdate exC "p1" "web" exSnap).cat "p1" "web" exSnap :=
 
 /-! ## 4. Inside the same peer: other services are left alone, nodes go only when unused -/
 
-/-- Within peer `p`, a processed update of `sn` keeps every instance of every other service (hypothesis
-    `NoTheft`: the snapshot claims none of their (node, id) keys; `Fresh`: no node is renamed away) and every
-    service check of such an instance whose check id the snapshot does not claim. -/
+/-- Within peer `p`, a processed update of `sn` keeps every instance of every other service whose (node, id) the
+    snapshot does not claim (`Fresh`: no node is renamed away), and every service check of such an instance whose
+    check id the snapshot does not claim. -/
 theorem other_services_same_peer (c : Cat) (p sn : String) (is : List Inst)
-    (wf : WF c) (ok : SnapOK sn is) (fr : Fresh c p is) (nt : NoTheft c p sn is)
+    (wf : WF c) (ok : SnapOK sn is) (fr : Fresh c p is)
     (he : (handleUpdate c p sn is).err = none) (hp : (handleUpdate c p sn is).panic = false) :
-    (∀ s ∈ c.svcs, s.peer = p → s.name ≠ sn → s ∈ (handleUpdate c p sn is).cat.svcs) ∧
-    (∀ k ∈ c.chks, k.peer = p → (∃ s ∈ c.svcs, s.peer = p ∧ s.name ≠ sn ∧ s.node = k.node ∧ s.sid = k.sid) →
+    (∀ s ∈ c.svcs, s.peer = p → s.name ≠ sn → (∀ i ∈ is, ¬(s.node = i.node.name ∧ s.sid = i.svc.sid)) →
+        s ∈ (handleUpdate c p sn is).cat.svcs) ∧
+    (∀ k ∈ c.chks, k.peer = p → (∃ s ∈ c.svcs, s.peer = p ∧ s.name ≠ sn ∧ s.node = k.node ∧ s.sid = k.sid ∧
+          ∀ i ∈ is, ¬(s.node = i.node.name ∧ s.sid = i.svc.sid)) →
         (∀ i ∈ is, ∀ d ∈ i.chks, ¬(k.node = d.node ∧ k.cid = d.cid)) → k ∈ (handleUpdate c p sn is).cat.chks) :=
-  ⟨(handleUpdate_other wf ok fr nt he hp).1, (handleUpdate_other wf ok fr nt he hp).2.1⟩
+  ⟨(handleUpdate_other wf ok fr he hp).1, (handleUpdate_other wf ok fr he hp).2.1⟩
 
 /-- A node of peer `p` that is not in the snapshot survives the update iff it did not carry an instance of `sn`
     before, or some instance of the peer remains on it: nodes are removed only when nothing is left on them,
     and a node left without instances by this update is removed. -/
 theorem unused_nodes_removed_only_if_unused (c : Cat) (p sn : String) (is : List Inst)
-    (wf : WF c) (ok : SnapOK sn is) (fr : Fresh c p is) (nt : NoTheft c p sn is)
+    (wf : WF c) (ok : SnapOK sn is) (fr : Fresh c p is)
     (he : (handleUpdate c p sn is).err = none) (hp : (handleUpdate c p sn is).panic = false) :
     ∀ x ∈ c.nodes, x.peer = p → (∀ i ∈ is, x.name ≠ i.node.name) →
       (x ∈ (handleUpdate c p sn is).cat.nodes ↔
         (¬(∃ s ∈ c.svcs, s.peer = p ∧ s.name = sn ∧ s.node = x.name) ∨
          ∃ s ∈ (handleUpdate c p sn is).cat.svcs, s.peer = p ∧ s.node = x.name)) :=
-  (handleUpdate_other wf ok fr nt he hp).2.2
+  (handleUpdate_other wf ok fr he hp).2.2
 
 /-- A processed exported-service-list update leaves every listed service of the peer untouched: its
     instances, their service checks and the nodes they live on. -/
@@ -391,8 +416,8 @@ theorem catalog_stays_well_formed (c : Cat) (ms : List Msg) (wf : WF c) : WF (ru
 -- non-vacuity of section 4 on the example of section 3: `api` on the shared node `n1` is left alone, the
 -- abandoned node `n2` is removed, the shared node `n1` stays
 example : (⟨"p1", "n1", "api1", "api", 443⟩ : Svc) ∈ (handleUpdate exC "p1" "web" exSnap).cat.svcs :=
-  (other_services_same_peer exC "p1" "web" exSnap ex_wf ex_snapOK ex_hyps.1 ex_hyps.2.1 ex_hyps.2.2.2.2.1
-    ex_hyps.2.2.2.2.2).1 _ (by decide) rfl (by decide)
+  (other_services_same_peer exC "p1" "web" exSnap ex_wf ex_snapOK ex_hyps.1 ex_hyps.2.2.2.1
+    ex_hyps.2.2.2.2).1 _ (by decide) rfl (by decide) (by decide)
 example : (⟨"p1", "n2", "", "10.0.0.2"⟩ : Node) ∉ (handleUpdate exC "p1" "web" exSnap).cat.nodes := by decide
 
 -- a list update on the same catalog: `web` is no longer exported, `api` is
@@ -400,6 +425,103 @@ example : (handleList exC "p1" ["api"]).err = none ∧
     (handleList exC "p1" ["api"]).cat.svcs.filter (fun s => decide (s.peer = "p1")) = [⟨"p1", "n1", "api1", "api", 443⟩] ∧
     (handleList exC "p1" ["api"]).cat.nodes.filter (fun n => decide (n.peer = "p1")) = [⟨"p1", "n1", "u1", "10.0.0.1"⟩] := by
   decide
+
+/-! ## 4b. Raft indexes (CreateIndex / ModifyIndex) of the rows
+
+Model: CV/PeerIdx.lean — `ixRun c ix idx log` replays the Raft commands of a handler from catalog `c`, index table
+`ix` and Raft index `idx`; every command is one transaction and consumes one index; a row is stamped only when it is
+written. The driver prints the indexes of every row and the harness compares them with the real rows. -/
+
+/-- Replaying the command log of an update reproduces the resulting catalog (the index layer and the content model
+    agree on what happened). -/
+theorem import_log_replays (c : Cat) (p sn : String) (is : List Inst) (ix : Ix) (idx : Nat) :
+    (ixRun c ix idx (handleUpdate c p sn is).log).1 = (handleUpdate c p sn is).cat := by
+  rw [ixRun_cat]; exact (handleUpdate_log c p sn is).1
+
+/-- Isolation covers the Raft indexes: whatever an update for peer `p` does, the index entries of all rows that do
+    not belong to `p` (local rows, other peers) are the same list afterwards. -/
+theorem import_isolated_indexes (c : Cat) (p sn : String) (is : List Inst) (ix : Ix) (idx : Nat) :
+    ixOthers p (ixRun c ix idx (handleUpdate c p sn is).log).2.1 = ixOthers p ix :=
+  ixOthers_run p _ c ix idx (handleUpdate_log c p sn is).2
+
+/-- The same for an exported-service-list update. -/
+theorem list_isolated_indexes (c : Cat) (p : String) (names : List String) (ix : Ix) (idx : Nat) :
+    ixOthers p (ixRun c ix idx (handleList c p names).log).2.1 = ixOthers p ix :=
+  ixOthers_run p _ c ix idx (handleList_log c p names).2
+
+/-- `other_services_same_peer` covers the Raft indexes: the instances of the peer's other services that the
+    snapshot does not claim, and their service checks, keep their CreateIndex and ModifyIndex. -/
+theorem other_services_same_peer_indexes (c : Cat) (p sn : String) (is : List Inst) (ix : Ix) (idx : Nat)
+    (wf : WF c) (ok : SnapOK sn is) (fr : Fresh c p is)
+    (he : (handleUpdate c p sn is).err = none) (hp : (handleUpdate c p sn is).panic = false) :
+    (∀ s ∈ c.svcs, s.peer = p → s.name ≠ sn → (∀ i ∈ is, ¬(s.node = i.node.name ∧ s.sid = i.svc.sid)) →
+        ixAt (svcKey s) (ixRun c ix idx (handleUpdate c p sn is).log).2.1 = ixAt (svcKey s) ix) ∧
+    (∀ k ∈ c.chks, k.peer = p → (∃ s ∈ c.svcs, s.peer = p ∧ s.name ≠ sn ∧ s.node = k.node ∧ s.sid = k.sid ∧
+          ∀ i ∈ is, ¬(s.node = i.node.name ∧ s.sid = i.svc.sid)) →
+        (∀ i ∈ is, ∀ d ∈ i.chks, ¬(k.node = d.node ∧ k.cid = d.cid)) →
+        ixAt (chkKey k) (ixRun c ix idx (handleUpdate c p sn is).log).2.1 = ixAt (chkKey k) ix) := by
+  obtain ⟨st, snap, c1, l1, hst, hsnap, _, _⟩ := handleUpdate_ok he hp
+  obtain ⟨snap', hsnap', _, sis⟩ := mkSnap_is ok
+  rw [hsnap] at hsnap'; cases hsnap'
+  obtain ⟨o1, o2⟩ := other_services_same_peer c p sn is wf ok fr he hp
+  have hregs := handleUpdate_log_regs (c := c) (p := p) (sn := sn) (is := is) hst hsnap
+  have hsid : ∀ r, Op.reg r ∈ (handleUpdate c p sn is).log → ∀ sd, r.svc = some sd → sd.sid ≠ "" := by
+    intro r hr sd hsd
+    obtain ⟨_, _, h2, _⟩ := op_inst sis (hregs r hr)
+    obtain ⟨i, hi, _, e⟩ := h2 sd hsd
+    rw [e]; exact (ok.inst i hi).2.1
+  have hcat := (handleUpdate_log c p sn is).1
+  constructor
+  · intro s hs hsp hsn hun
+    refine (ixRun_keep_svc _ c ix idx wf s hsid ?_ (by rw [hcat]; exact o1 s hs hsp hsn hun)).2
+    intro r sd hr hsd e
+    obtain ⟨_, _, h2, _⟩ := op_inst sis (hregs r hr)
+    obtain ⟨i, hi, _, e2⟩ := h2 sd hsd
+    apply hsn
+    rw [e, e2]; exact (ok.inst i hi).2.2
+  · intro k hk hkp hhost hno
+    refine (ixRun_keep_chk _ c ix idx wf k hsid ?_ (by rw [hcat]; exact o2 k hk hkp hhost hno)).2
+    intro r hr d hd hfrom
+    obtain ⟨_, _, _, h3⟩ := op_inst sis (hregs r hr)
+    obtain ⟨i, hi, _, hdi⟩ := h3 d hd
+    exact hno i hi d hdi ⟨hfrom.2.1, hfrom.2.2.1⟩
+
+/-- The skip-unchanged path: an instance that the snapshot lists exactly as it is stored is not written — it keeps
+    its CreateIndex and ModifyIndex (under the hypotheses of `import_exact_partial`, which put it into the result). -/
+theorem unchanged_instance_keeps_indexes (c : Cat) (p sn : String) (is : List Inst) (ix : Ix) (idx : Nat)
+    (wf : WF c) (ok : SnapOK sn is) (fr : Fresh c p is) (nr : NoReuse c p sn is) (cv : Covered c p sn is)
+    (he : (handleUpdate c p sn is).err = none) (hp : (handleUpdate c p sn is).panic = false) :
+    ∀ i ∈ is, svcRow p i.node.name i.svc ∈ c.svcs →
+      ixAt (svcKey (svcRow p i.node.name i.svc)) (ixRun c ix idx (handleUpdate c p sn is).log).2.1 =
+      ixAt (svcKey (svcRow p i.node.name i.svc)) ix := by
+  intro i hi hstored
+  obtain ⟨st, snap, c1, l1, hst, hsnap, _, _⟩ := handleUpdate_ok he hp
+  obtain ⟨snap', hsnap', _, sis⟩ := mkSnap_is ok
+  rw [hsnap] at hsnap'; cases hsnap'
+  have hregs := handleUpdate_log_regs (c := c) (p := p) (sn := sn) (is := is) hst hsnap
+  have hpres := (import_exact_partial c p sn is wf ok fr nr cv he hp).2.1 i hi
+  have hcat := (handleUpdate_log c p sn is).1
+  refine (ixRun_keep_svc _ c ix idx wf _ ?_ ?_ (by rw [hcat]; exact hpres.2.1)).2
+  · intro r hr sd hsd
+    obtain ⟨_, _, h2, _⟩ := op_inst sis (hregs r hr)
+    obtain ⟨j, hj, _, e⟩ := h2 sd hsd
+    rw [e]; exact (ok.inst j hj).2.1
+  · intro r sd hr hsd e
+    have hch := regOps_svc_changed p st snap r sd (hregs r hr) hsd
+    obtain ⟨hpeer, _, h2, _⟩ := op_inst sis (hregs r hr)
+    obtain ⟨j, hj, e1, e2⟩ := h2 sd hsd
+    have hrow : svcRow p r.node.name sd ∈ c.svcs := by
+      have : svcRow p r.node.name sd = svcRow p i.node.name i.svc := by rw [e]; simp [svcRow, hpeer]
+      rw [this]; exact hstored
+    have := svcUnchanged_of_stored wf hst (by rw [e2]; exact (ok.inst j hj).2.2) hrow
+    rw [this] at hch; cases hch
+
+-- non-vacuity on the example of section 3: local / other-peer rows and the `api` instance keep their indexes,
+-- the changed `web1` instance is stamped with the index of its command
+def exIx : Ix := [⟨⟨.svc, "p1", "n1", "api1"⟩, 3, 4⟩, ⟨⟨.svc, "p1", "n1", "web1"⟩, 5, 6⟩, ⟨⟨.svc, "", "n1", "web1"⟩, 1, 2⟩]
+example : ixOthers "p1" (ixRun exC exIx 20 (handleUpdate exC "p1" "web" exSnap).log).2.1 = [⟨⟨.svc, "", "n1", "web1"⟩, 1, 2⟩] := by decide
+example : ixAt ⟨.svc, "p1", "n1", "api1"⟩ (ixRun exC exIx 20 (handleUpdate exC "p1" "web" exSnap).log).2.1 = [⟨⟨.svc, "p1", "n1", "api1"⟩, 3, 4⟩] := by decide
+example : ixAt ⟨.svc, "p1", "n1", "web1"⟩ (ixRun exC exIx 20 (handleUpdate exC "p1" "web" exSnap).log).2.1 = [⟨⟨.svc, "p1", "n1", "web1"⟩, 5, 21⟩] := by decide
 
 /-! ## 5. The exporting side offers a service only to its consumers -/
 
@@ -436,21 +558,25 @@ theorem export_iff_consumer (cfg : List ExpEntry) (typical : List String) (peer 
       have hs : ¬ ("*" : String) = consulName := by decide
       simp [hp, hw, ht, hc, hs]
 
-/-- Whatever is offered to a peer — as a service or as a discovery chain — is named (exactly or by a
-    wildcard) by an exported-services entry that lists this peer as a consumer, and is never `consul`. -/
-theorem export_only_to_consumers (cfg : List ExpEntry) (typical chains connect : List String) (peer sn : String)
-    (h : sn ∈ exportedFor cfg typical peer ∨ sn ∈ exportedChains cfg typical chains connect peer) :
-    sn ≠ consulName ∧ ∃ e ∈ cfg, peer ∈ e.peers ∧ (e.name = sn ∨ e.name = "*") := by
-  have key : sn ∈ exportedFor cfg typical peer → sn ≠ consulName ∧ ∃ e ∈ cfg, peer ∈ e.peers ∧ (e.name = sn ∨ e.name = "*") := by
-    intro h1
-    obtain ⟨hc, ⟨e, he, hn, _, hp⟩ | ⟨e, he, hw, hp, _⟩⟩ := (export_iff_consumer cfg typical peer sn).mp h1
-    · exact ⟨hc, e, he, hp, Or.inl hn⟩
-    · exact ⟨hc, e, he, hp, Or.inr hw⟩
-  rcases h with h | h
-  · exact key h
-  · simp only [exportedChains, List.mem_append, List.mem_flatMap, List.mem_filter, decide_eq_true_eq] at h
-    rcases h with ⟨e, he, h⟩ | ⟨h, _⟩
-    · split at h
+/-- `ExportedServiceList.DiscoChains` for a peer, exactly: a name is offered as a discovery chain iff its compiled chain does
+    not end at `consul` (redirects followed) and either a wildcard entry lists the peer and the name is a discovery chain other than
+    `consul`, or the name is offered as a service and is a discovery chain, has connect-enabled instances, or sits
+    behind a terminating gateway. -/
+theorem export_chain_iff (cfg : List ExpEntry) (typical : List String) (chains : List Chain) (connect tgw : List String)
+    (peer sn : String) :
+    sn ∈ exportedChains cfg typical chains connect tgw peer ↔
+      chainEnd chains (chains.length + 1) sn ≠ consulName ∧
+      ((sn ≠ consulName ∧ (∃ ch ∈ chains, ch.name = sn) ∧ ∃ e ∈ cfg, e.name = "*" ∧ peer ∈ e.peers) ∨
+       (sn ∈ exportedFor cfg typical peer ∧ ((∃ ch ∈ chains, ch.name = sn) ∨ sn ∈ connect ∨ sn ∈ tgw))) := by
+  have hs : ¬ ("*" : String) = consulName := by decide
+  simp only [exportedChains, List.mem_filter, List.mem_append, List.mem_flatMap, List.mem_map, Bool.not_eq_true',
+    decide_eq_true_eq, decide_eq_false_iff_not]
+  constructor
+  · rintro ⟨h, hno⟩
+    refine ⟨hno, ?_⟩
+    rcases h with ⟨e, he, h⟩ | ⟨h1, h2⟩
+    · left
+      split at h
       · cases h
       · split at h
         · cases h
@@ -460,14 +586,53 @@ theorem export_only_to_consumers (cfg : List ExpEntry) (typical chains connect :
           · cases h
           · rename_i hw
             simp only [Decidable.not_not] at hw
-            simp only [List.mem_filter, decide_eq_true_eq] at h
-            exact ⟨h.2, e, he, hp, Or.inr hw⟩
-    · exact key h
+            simp only [List.mem_filter, List.mem_map, decide_eq_true_eq] at h
+            obtain ⟨⟨ch, hch, e1⟩, h3⟩ := h
+            exact ⟨h3, ⟨ch, hch, e1⟩, e, he, hw, hp⟩
+    · right
+      refine ⟨h1, ?_⟩
+      rcases h2 with ⟨ch, hch, e1⟩ | h2 | h2
+      · exact Or.inl ⟨ch, hch, e1⟩
+      · exact Or.inr (Or.inl h2)
+      · exact Or.inr (Or.inr h2)
+  · rintro ⟨hno, h⟩
+    refine ⟨?_, hno⟩
+    rcases h with ⟨hc, ⟨ch, hch, e1⟩, e, he, hw, hp⟩ | ⟨h1, h2⟩
+    · left
+      refine ⟨e, he, ?_⟩
+      simp only [hw, hs, if_false, hp, not_true_eq_false, ne_eq, List.mem_filter, List.mem_map, decide_eq_true_eq]
+      exact ⟨⟨ch, hch, e1⟩, hc⟩
+    · right
+      refine ⟨h1, ?_⟩
+      rcases h2 with ⟨ch, hch, e1⟩ | h2 | h2
+      · exact Or.inl ⟨ch, hch, e1⟩
+      · exact Or.inr (Or.inl h2)
+      · exact Or.inr (Or.inr h2)
+
+/-- Whatever is offered to a peer — as a service or as a discovery chain — is named (exactly or by a
+    wildcard) by an exported-services entry that lists this peer as a consumer, and is never `consul`. -/
+theorem export_only_to_consumers (cfg : List ExpEntry) (typical : List String) (chains : List Chain)
+    (connect tgw : List String) (peer sn : String)
+    (h : sn ∈ exportedFor cfg typical peer ∨ sn ∈ exportedChains cfg typical chains connect tgw peer) :
+    sn ≠ consulName ∧ ∃ e ∈ cfg, peer ∈ e.peers ∧ (e.name = sn ∨ e.name = "*") := by
+  have key : sn ∈ exportedFor cfg typical peer → sn ≠ consulName ∧ ∃ e ∈ cfg, peer ∈ e.peers ∧ (e.name = sn ∨ e.name = "*") := by
+    intro h1
+    obtain ⟨hc, ⟨e, he, hn, _, hp⟩ | ⟨e, he, hw, hp, _⟩⟩ := (export_iff_consumer cfg typical peer sn).mp h1
+    · exact ⟨hc, e, he, hp, Or.inl hn⟩
+    · exact ⟨hc, e, he, hp, Or.inr hw⟩
+  rcases h with h | h
+  · exact key h
+  · rcases ((export_chain_iff cfg typical chains connect tgw peer sn).mp h).2 with ⟨hc, _, e, he, hw, hp⟩ | ⟨h1, _⟩
+    · exact ⟨hc, e, he, hp, Or.inr hw⟩
+    · exact key h1
 
 -- non-vacuity: exact entry, wildcard for another peer, `consul` never, an unknown peer gets nothing
 example : exportedFor [⟨"web", ["p1"]⟩, ⟨"*", ["p2", "p3"]⟩, ⟨"consul", ["p1"]⟩] ["api", "consul", "web"] "p1" = ["web"] := by decide
 example : exportedFor [⟨"web", ["p1"]⟩, ⟨"*", ["p2", "p3"]⟩, ⟨"consul", ["p1"]⟩] ["api", "consul", "web"] "p2" = ["api", "web"] := by decide
 example : exportedFor [⟨"web", ["p1"]⟩, ⟨"*", ["p2", "p3"]⟩, ⟨"consul", ["p1"]⟩] ["api", "consul", "web"] "p9" = [] := by decide
+-- chains: `web` is a chain, `api` redirects to `consul` (dropped), `db` sits behind a terminating gateway
+example : exportedChains [⟨"web", ["p1"]⟩, ⟨"api", ["p1"]⟩, ⟨"db", ["p1"]⟩, ⟨"cache", ["p1"]⟩] []
+    [⟨"web", "web"⟩, ⟨"api", "consul"⟩] [] ["db"] "p1" = ["web", "db"] := by decide
 
 end CV.Peer
 
@@ -511,6 +676,30 @@ theorem export_delivers_counterexample_no_cleanup :
     "a" ∈ (run .never {} [.list ["a"], .data "a" 1, .list [], .list ["a"], .data "a" 1]).watched ∧
     get (run .never {} [.list ["a"], .data "a" 1, .list [], .list ["a"], .data "a" 1]).offered "a" = some 1 ∧
     get (run .never {} [.list ["a"], .data "a" 1, .list [], .list ["a"], .data "a" 1]).peer "a" = none := by decide
+
+/-! Full-strength statement for the other direction (FALSE for the code as it is): after any event sequence the
+    importing side holds nothing for a service that is not exported,
+        `n ∉ (run .always {} evs).watched → get (run .always {} evs).peer n = none`.
+    `handleEvent` does not check that a snapshot belongs to a service that is still watched. -/
+
+/-- (`export:queued-snapshot-sent-after-unexport`) the watch of `a` has queued a snapshot; the list update that
+    un-exports `a` is handled first (the importer deletes `a`, the version of `a` is forgotten); the queued snapshot
+    is handled next and sent; the unchanged list is never sent again: the importer holds the un-exported `a`. -/
+theorem export_unexported_absent_counterexample :
+    "a" ∉ (run .always {} [.list ["a"], .data "a" 1, .list [], .data "a" 2, .list []]).watched ∧
+    get (run .always {} [.list ["a"], .data "a" 1, .list [], .data "a" 2, .list []]).peer "a" = some 2 := by decide
+
+/-- Partial: if every snapshot is handled while its service is watched (`Timely`: no snapshot of a cancelled watch is
+    still queued), the importing side holds nothing for a service that is not exported — for every clean-up policy. -/
+theorem export_unexported_absent_partial (pol : Policy) (evs : List Ev) (ht : Timely pol {} evs) (n : String)
+    (hn : n ∉ (run pol {} evs).watched) : get (run pol {} evs).peer n = none := by
+  have hi := inv2_run pol evs {} inv2_init ht
+  cases hp : get (run pol {} evs).peer n with
+  | none => rfl
+  | some h => exact absurd (hi.held n h hp) hn
+
+-- non-vacuity of `Timely`: the swap history is timely
+example : Timely .always {} cxSwap := by simp only [cxSwap, Timely]; decide
 
 -- non-vacuity: with the code as it is the same history delivers `a` again
 example : get (run .always {} cxSwap).peer "a" = some 1 ∧ get (run .always {} cxSwap).peer "b" = some 2 := by decide
